@@ -76,7 +76,7 @@ class LeaderFollowerIntersector(Intersector):
         new_intersects = len(traces[0])
 
         # Throw away the header, since we don't need it
-        if not self.started:
+        if not self.started and traces[0]:
             self.started = True
             new_intersects -= 1
 
@@ -136,6 +136,23 @@ class SkipAheadIntersector(Intersector):
         curr = None
 
         while point0 and point1:
+            #
+            # Leftover uses of a fiber the other operand has already
+            # finished: no comparison may span two fibers
+            #
+            if point0[:-1] != point1[:-1]:
+                if point0[:-1] < point1[:-1]:
+                    point0, i0 = get_next(trace0, i0)
+                else:
+                    point1, i1 = get_next(trace1, i1)
+
+                if point0:
+                    fiber = point0[:-1]
+                else:
+                    fiber = None
+                curr = None
+                continue
+
             if point0 == point1:
                 self.num_intersects += 1
                 curr = None
@@ -204,7 +221,7 @@ class TwoFingerIntersector(Intersector):
         trace1 = traces[1]
 
         # Throw away the header, since we don't need it
-        if not self.started:
+        if not self.started and trace0:
             self.started = True
 
             self.num_ranks = (len(trace0[0]) - 1) // 2
@@ -231,6 +248,22 @@ class TwoFingerIntersector(Intersector):
         fiber = point0[:-1]
 
         while point0 and point1:
+            #
+            # Leftover uses of a fiber the other operand has already
+            # finished: no comparison may span two fibers
+            #
+            if point0[:-1] != point1[:-1]:
+                if point0[:-1] < point1[:-1]:
+                    point0, i0 = get_next(trace0, i0)
+                else:
+                    point1, i1 = get_next(trace1, i1)
+
+                if point0:
+                    fiber = point0[:-1]
+                else:
+                    fiber = None
+                continue
+
             self.num_intersects += 1
 
             if point0 == point1:
